@@ -81,6 +81,12 @@ pub fn lex_number(source: &[char]) -> Option<FoundToken> {
 
     // Find the longest possible valid number
     while !s.is_empty() {
+        // A number ends in a digit: `1.` is a number followed by a period, whatever comes later.
+        if !s.ends_with(|c: char| c.is_ascii_digit()) {
+            s.pop();
+            continue;
+        }
+
         if let Ok(n) = s.parse::<f64>() {
             let precision = s.chars().rev().position(|c| c == '.').unwrap_or_default();
 
